@@ -114,6 +114,7 @@ type loopInfo struct {
 	modArrs  []string
 	locs     []modLoc
 	entryPhis map[*ssa.Phi]Val
+	edges    int
 }
 
 func (v *FnVerifier) note(format string, args ...interface{}) {
@@ -663,9 +664,8 @@ func (f *frame) run(st *State, reach Term) {
 	if len(fn.Blocks) == 0 {
 		unsupp("function %s has no body", fn)
 	}
-	if fn.Recover != nil {
-		unsupp("function %s uses recover", fn)
-	}
+	// fn.Recover (the block run after a panic when there are defers) is never entered:
+	// panics are separate safety obligations, and only effect-free defers are accepted.
 	f.analyseLoops()
 	f.collectDebug()
 	f.reachOut = map[*ssa.BasicBlock]Term{}
